@@ -137,6 +137,7 @@ FRESH_CONTAINERS = ('accessibles', 'parameters', 'commands', 'paramCallbacks', '
 # class-level registries that may be filled through instances: symbol -> reason (DESIGN A.8)
 REGISTRY_EXCEPTIONS = {
     'frappy.rwhandler.Handler.method_names': 'transient class-creation registry, entries are removed in __set_name__',
+    'frappy_psi.sea.SeaClient.default_json_file': 'driver package: name -> description file registry read by sibling classes of the same node (thorough tier)',
 }
 
 
@@ -169,7 +170,7 @@ def per_instance_state(ctx):
     # class-level mutable literals mutated through self
     INPLACE = {'append', 'add', 'update', 'setdefault', 'pop', 'extend', 'clear', 'remove', 'insert', 'popitem', 'discard'}
     for q, ci in sorted(m.classes.items()):
-        if not ci.module.name.startswith('frappy.') or ci.module.name.startswith('frappy.gui') or \
+        if not ci.module.name.startswith('frappy') or ci.module.name.startswith('frappy.gui') or \
                 ci.module.name in ('frappy.protocol.router', 'frappy.client.interactive', 'frappy.playground'):   # stale / interactive tools (A.8)
             continue
         for attr, expr in ci.assigns.items():
@@ -199,6 +200,9 @@ def per_instance_state(ctx):
             ctx.analysed(fi)
             if sym in REGISTRY_EXCEPTIONS:
                 ctx.ok(f'{sym}:class-level mutable', n, f'named exception: {REGISTRY_EXCEPTIONS[sym]}', fi)
+                continue
+            if not ci.module.name.startswith('frappy.'):
+                ctx.info(f'{sym}:class-level mutable', n, 'class-level mutable in a driver package filled through an instance (un-triaged: info only)', fi)
                 continue
             if reassigned and all(_assigned_before(m, f2, attr, n2) for f2, n2 in muts):
                 ctx.ok(f'{sym}:class-level mutable', n, 'a per-instance object is assigned before it is mutated', fi)
